@@ -1021,6 +1021,8 @@ class FnTranslator:
                     raise Unsupported(f"assignment to global {target.id}")
                 self.declared.add(target.id)
                 return [f"let mut {mangle(target.id)} := {value}"]
+            if rebind and target.id in getattr(self, "val_lifted", set()):
+                value = f"(toVal {value})"
             out = [f"{mangle(target.id)} := {value}"]
             if not rebind:
                 seen = {target.id}
@@ -1350,6 +1352,11 @@ class FnTranslator:
                 later = loaded_names(body[i + 1:])
                 for n in sorted(assigned_names([s]) & later - self.declared):
                     ty = self.hints.get("types", {}).get(n)
+                    if not ty and self.hints.get("ifexp_toVal"):
+                        # same policy as for conditional expressions in this function: the branches may give values of different
+                        # Python types (int literal / attribute value); the variable holds a `Val` and assignments are lifted
+                        ty = "Val"
+                        self.val_lifted = getattr(self, "val_lifted", set()) | {n}
                     out.append("  " * ind + (f"let mut {mangle(n)} : {ty} := default" if ty else f"let mut {mangle(n)} := default"))
                     self.declared.add(n)
             out += self.stmt(s, ind)
